@@ -856,7 +856,7 @@ class TemplateModel(object):
         # Order the channels by decreasing amplitude.
         order = np.argsort(amplitude[channel_ids])[::-1]
         channel_ids = channel_ids[order]
-        amplitude = amplitude[order]
+        amplitude = amplitude[channel_ids]
         assert best_channel in channel_ids
         assert amplitude.shape == (len(channel_ids),)
         return channel_ids, amplitude, best_channel
@@ -927,7 +927,7 @@ class TemplateModel(object):
         channels_reordered = np.argsort(amplitude)[::-1]
         out = Bunch(
             template=template[..., channels_reordered],
-            amplitude=amplitude,
+            amplitude=amplitude[channels_reordered],
             best_channel=best_channel,
             channel_ids=channel_ids[channels_reordered],
         )
